@@ -6,6 +6,7 @@ import tempfile
 
 from hypothesis import strategies as st
 
+from vk import gen
 from vk import models as M
 
 ID = "C18"
@@ -128,7 +129,7 @@ def ped_pairs(case):
 # ------------------------------------------------------------------ rendering
 def vcf_text(case):
     L = ["##fileformat=VCFv4.2", '##FILTER=<ID=q10,Description="Quality below 10">']
-    L += [f"##contig=<ID={c},length=100000000>" for c in case["contigs"]]
+    L += [f"##contig=<ID={c},length=9000000000>" for c in case["contigs"]]
     L += ['##INFO=<ID=SOMATIC,Number=0,Type=Flag,Description="Somatic event">',
           '##INFO=<ID=DP,Number=1,Type=Integer,Description="Total depth">',
           '##FORMAT=<ID=GT,Number=1,Type=String,Description="Genotype">']
@@ -297,9 +298,15 @@ def check_case(case):
     from skgenome import GenomicArray, tabio
 
     out = []
+    # where on the contigs the records and ranges sit (near the start, human-chromosome scale, beyond 2^31): a pure
+    # function of the case (seeded change C18h narrowed the coordinates to 32 bits)
+    off = gen.offset_for(case)
+    if off:
+        case = dict(case, records=[dict(r, pos=r["pos"] + off) for r in case["records"]],
+                    ranges=[[c, s_ + off, e_ + off] for c, s_, e_ in case["ranges"]], offset=off)
 
     def bad(clause, detail):
-        out.append({"clause": clause, "detail": f"{detail}; samples={case['samples']} pedigree={case['pedigree']} sample_id={case['sample_id']!r} "
+        out.append({"clause": clause, "detail": f"{detail}; offset={off} samples={case['samples']} pedigree={case['pedigree']} sample_id={case['sample_id']!r} "
                     f"normal_id={case['normal_id']!r} FORMAT AD={case['fmt_ad']} DP={case['fmt_dp']}"})
 
     d = tempfile.mkdtemp(prefix="vk18.")
@@ -419,7 +426,6 @@ def check_case(case):
 
         # ------------------------------------------------ BAF per range
         if case["ranges"] and len(hets) and "alt_freq" in hets:
-            from vk import gen
 
             rg = GenomicArray(gen.relabel(pd.DataFrame([tuple(x) for x in case["ranges"]], columns=["chromosome", "start", "end"]),
                                           gen.spec_for(case, "ranges")))
